@@ -3,7 +3,7 @@
    property, `mech = true` mirrors the code's copy-in / write-through / copy-back of array parameters and self.
    The implementation's double representation of struct values is NOT modelled (property claimed partial). *)
 From Coq Require Import List ZArith Bool Arith.
-From Cb Require Import C07.Model C07.Store C07.History C07.CallConv C07.Witness.
+From Cb Require Import C07.Model C07.Store C07.History C07.CallConv C07.Witness C07.Nested.
 Import ListNotations.
 Local Open Scope Z_scope.
 
@@ -179,3 +179,94 @@ Theorem paths_agree_two_arrparams_refuted :
     call_ok w_heap d_params d_body = false.
 Proof. exact two_arrparams_witness. Qed.
 Print Assumptions paths_agree_two_arrparams_refuted.
+
+(* ================================================================ receivers through pointers, exit forms, nested calls *)
+
+(* the constructs for calls made from inside a callee body (Model.v: exec_call_in, stmt, OCall2) are a conservative
+   extension: in the empty frame, resp. with a call-free body, they are exactly the calls of main *)
+Theorem nested_calls_conservative : forall mech h ps body ret,
+  exec_call_in mech h [] [] ps body ret = exec_call mech h ps body ret /\
+  exec_call2 mech h ps (map TS body) ret = exec_call mech h ps body ret.
+Proof. intros. split. apply exec_call_in_nil_lemma. apply exec_call2_flat_lemma. Qed.
+Print Assumptions nested_calls_conservative.
+
+(* aliasing convention, EVERY receiver/argument form x EVERY exit form: the argument is any access expression
+   (c.m(), p->m(), ( *p).m(): arg = ADeref ...), the callee falls off the end (ret = None), returns a value into a
+   fresh variable (Some (e, None)) or into a destination that does not overlap the cell (Some (e, Some d)): the write
+   through the T& / array / self parameter is read back through every caller path once the call completes, and
+   every other cell (not overlapping, not the destination) is unchanged *)
+Theorem alias_visible_call_exits : forall m h arg ks z ret h' out fp l p,
+  resolve h [] arg = Some (l, p) ->
+  (l < length h)%nat ->
+  (m = MRef \/ m = MArr \/ m = MSelf) ->
+  dest_clear (l, p ++ ks) ret ->
+  exec_call false h [(m, arg)] [SWrite (flds (APar 0) ks) z] ret = Some (h', out, fp) ->
+  hread h' (l, p ++ ks) = Some (VInt z) /\
+  (forall a', resolve h' [] a' = Some (l, p ++ ks) -> eval h' [] a' = Some (VInt z)) /\
+  (forall d, (fst d < length h)%nat -> overlap (l, p ++ ks) d = false -> dest_clear d ret -> hread h' d = hread h d).
+Proof. exact alias_visible_call_exits_lemma. Qed.
+Print Assumptions alias_visible_call_exits.
+
+(* the method is invoked by a callee that received &arg:  T f(C* q) { [r =] q->m(); [return e;] }  with
+   m() { self.ks = z; [return e';] } - all four combinations of exits: visible in the caller through every path *)
+Theorem alias_visible_nested_ptr_call : forall h arg ks z iret oret h' out fp l p,
+  resolve h [] arg = Some (l, p) ->
+  (l < length h)%nat ->
+  exec_call2 false h [(MPtr, arg)]
+             [TCall [(MSelf, ADeref (APar 0))] [SWrite (flds (APar 0) ks) z] (lift iret)] (lift oret)
+    = Some (h', out, fp) ->
+  hread h' (l, p ++ ks) = Some (VInt z) /\
+  (forall a', resolve h' [] a' = Some (l, p ++ ks) -> eval h' [] a' = Some (VInt z)) /\
+  (forall d, (fst d < length h)%nat -> overlap (l, p ++ ks) d = false -> hread h' d = hread h d).
+Proof. exact alias_visible_nested_ptr_call_lemma. Qed.
+Print Assumptions alias_visible_nested_ptr_call.
+
+(* REFINEMENT with dereferences in the arguments (p->m(), ( *p).m(), f( *p)): an argument enters the binding only
+   through the cell it resolves to, hence the side condition is call_ok on the normalised parameter list.
+   (partial: callee bodies without dereferences and without &, no nested calls; struct double representation
+   outside the model) *)
+Theorem copyback_refines_alias_deref_partial : forall h ps body ret hs out fps,
+  call_ok h (norm_params h ps) body = true -> ret_ok (length h) ret = true ->
+  exec_call false h ps body ret = Some (hs, out, fps) ->
+  exists hm fpm,
+    exec_call true h ps body ret = Some (hm, out, fpm) /\
+    length hm = length hs /\
+    (forall l, (l < length h)%nat -> nth_error hm l = nth_error hs l) /\
+    match ret with
+    | Some (_, None) => nth_error hm (length hm - 1) = nth_error hs (length hs - 1)
+    | _ => True
+    end.
+Proof. exact copyback_refines_alias_deref_lemma. Qed.
+Print Assumptions copyback_refines_alias_deref_partial.
+
+(* hence under the code's copy-in / write-through / copy-back convention: a write through self (or an array
+   parameter) made by a callee invoked through ANY receiver expression and leaving in ANY way is visible in the
+   caller after the call; nothing else changes *)
+Theorem alias_visible_receiver_copyin_partial : forall m h recv ks z ret hs out fp l p,
+  (m = MArr \/ m = MSelf) ->
+  resolve h [] recv = Some (l, p) -> (l < length h)%nat ->
+  call_ok h [(m, flds (AVar l) p)] [SWrite (flds (APar 0) ks) z] = true ->
+  ret_ok (length h) ret = true ->
+  dest_clear (l, p ++ ks) ret ->
+  exec_call false h [(m, recv)] [SWrite (flds (APar 0) ks) z] ret = Some (hs, out, fp) ->
+  exists hm fpm,
+    exec_call true h [(m, recv)] [SWrite (flds (APar 0) ks) z] ret = Some (hm, out, fpm) /\
+    hread hm (l, p ++ ks) = Some (VInt z) /\
+    (forall d, (fst d < length h)%nat -> overlap (l, p ++ ks) d = false -> dest_clear d ret -> hread hm d = hread h d).
+Proof. exact alias_visible_receiver_copyin_lemma. Qed.
+Print Assumptions alias_visible_receiver_copyin_partial.
+
+(* the shape of the demo (C* p = &c; p->vbump(8); int r = p->bump(8); c.t = p->bump(8); bump_via(&c, 8) with
+   every exit of both callees): both conventions print the same lines and c.n = 8 is read through c.n and p->n *)
+Example ptr_receiver_exits_witness :
+  forallb (fun k =>
+    match transcript false n_heap (n_ops k ++ n_reads), transcript true n_heap (n_ops k ++ n_reads) with
+    | (os, true), (om, true) =>
+        match os, om with
+        | [l1; l2], [l1'; l2'] =>
+            zs_eqb l1 [1; 8; 2] && zs_eqb l1' [1; 8; 2] && zs_eqb l2 [2; 8; 8] && zs_eqb l2' [2; 8; 8]
+        | _, _ => false
+        end
+    | _, _ => false
+    end) (seq 0 7) = true.
+Proof. exact nested_exits_witness. Qed.
